@@ -211,6 +211,7 @@ def specs_for(tier):
          gridlab.tokamak_spec("cdn", options={"orthogonal": False}, extract=ex),
          gridlab.tokamak_spec("lsn", options={"orthogonal": False, "number_of_processors": 2}, wall=W2, extract=ex),
          gridlab.tokamak_spec("udn", extract=ex),
+         gridlab.tokamak_spec("udn", options={"psinorm_sol": 1.1, "psinorm_sol_inner": 1.06}, extract=ex),   # different inner / outer SOL ranges
          # a large-flux equilibrium (psi x 15): corrections in psi during refinement are large compared with the tolerances
          gridlab.tokamak_spec("lsn", options={"orthogonal": False}, wall=W2, psi_sign=15.0, extract=ex),
          gridlab.circular_spec(extract=ex)]
@@ -254,6 +255,7 @@ def oracle(res, tier):
         xp = on["xpoints"]
         v = o["vars"]
         worst = 0.0
+        worst_pin = 0.0
         for suf in OFFS:
             R, Z = on["pos"][suf]
             if not (np.array_equal(v["Rxy" + suf], R) and np.array_equal(v["Zxy" + suf], Z)):
@@ -273,7 +275,16 @@ def oracle(res, tier):
                 excl = np.zeros(err.shape, bool)
                 for flag, (psuf, ix, iy) in PIN.items():
                     if suf == psuf and r["pinned"][flag]:
+                        # a corner pinned to an X-point is not refined, but the X-point it is pinned to must be the one on this radial
+                        # index's own surface (psi_sep of *that* X-point): it is judged with the same bound, against the pin's psi
                         excl[ix, iy] = True
+                        epin = float(err[ix, iy])
+                        worst_pin = max(worst_pin, epin)
+                        if epin > float(bound[ix, 0]):
+                            R, Z = on["pos"][suf]
+                            res.violation("pinned-off-surface:%s" % t, "%s region %s: the corner pinned to an X-point, (%.6f, %.6f), has psi=%.9g but its radial "
+                                          "index has psi=%.9g (|diff|=%.2e): pinned to an X-point of a different surface"
+                                          % (t, r["name"], R[sx, sy][ix, iy], Z[sx, sy][ix, iy], ps[ix, iy], exp[ix, 0], epin), {"spec": sp, "region": r["name"]})
                         R, Z = on["pos"][suf]
                         pr, pz = R[sx, sy][ix, iy], Z[sx, sy][ix, iy]
                         if not any(abs(pr - a) < 1e-9 and abs(pz - b) < 1e-9 for a, b in xp):
@@ -293,6 +304,7 @@ def oracle(res, tier):
         res.traces += 1
         worst_all = max(worst_all, worst)
         res.extra.setdefault("worst_abs_psi_error", {})[t] = worst
+        res.extra.setdefault("worst_pinned_corner_psi_error", {})[t] = worst_pin
         if "refinelog" in o["extras"]:
             res.extra.setdefault("refine_methods_used", {})[t] = o["extras"]["refinelog"]["counts"]
     res.extra["worst_overall"] = worst_all
